@@ -32,6 +32,7 @@ type C18Case struct {
 	Reads   []int      `json:"reads"`
 	Chunks  []int      `json:"chunks"`
 	EOFWith bool       `json:"eof_with"`
+	BufSize int        `json:"buf_size,omitempty"` // >0: the source is the caller's *bufio.Reader of this size (long uninterrupted spans of input for the vector loop; triple-symbol tables need > 4096 bytes in hand)
 	// writer-half replay
 	Writer *C18WCase   `json:"writer,omitempty"`
 	Enc    *C18EncCase `json:"enc,omitempty"`
@@ -72,6 +73,7 @@ func drawC18(t *rapid.T) C18Case {
 	}
 	c.Reads = drawReadSizes(t)
 	c.Chunks, c.EOFWith = drawChunks(t)
+	c.BufSize = rapid.SampledFrom([]int{0, 0, 16, 65536, 1 << 20}).Draw(t, "bufsize")
 	return c
 }
 
@@ -105,7 +107,11 @@ func checkC18(c C18Case) (labels []string, nontrivial bool, err error) {
 	var strict *refinflate.Result
 	for _, lvl := range levels {
 		fastgo.VerifSetArchLevel(lvl)
-		r := fflate.NewReader(makeSource(z, c.Chunks, c.EOFWith))
+		var src io.Reader = makeSource(z, c.Chunks, c.EOFWith)
+		if c.BufSize > 0 {
+			src = newBufio(src, c.BufSize)
+		}
+		r := fflate.NewReader(src)
 		out, rerr := readAllChunks(r, c.Reads, 0)
 		fastgo.VerifSetArchLevel(old)
 		s, _, jerr := judgeMalformed(z, outcome{out, rerr}, c.Prefix)
@@ -517,6 +523,15 @@ func (c C18EncCase) domlitData() []byte {
 		return 'X'
 	}
 	out := make([]byte, 0, c.Size+8)
+	for i := 0; i < c.Pad; i++ {
+		// leading filler (no X, no Z): shifts where the clusters fall against both the input buffer
+		// fills and the encoder's output-buffer fill points
+		r := byte(next() >> 24)
+		for r == 'X' || r == 'Z' {
+			r = byte(next() >> 24)
+		}
+		out = append(out, r)
+	}
 	for len(out) < c.Size {
 		if next()%uint64(c.Gap) < 2 {
 			for k, n := 0, 3+int(next()%3); k < n; k++ {
@@ -672,5 +687,25 @@ func TestC18EncSweep(t *testing.T) {
 			}
 		}
 	}
+	// the same for groups of tiny tokens (1..5-bit single literals emitted by the scalar tail of the
+	// match finder at every input buffer fill): dense clusters, 4 KiB window (a fill every 4354 bytes),
+	// shifted by every number of leading filler bytes over one fill period
+	m := 0
+	for _, lvl := range []int{1, 2} {
+		for pad := 0; pad <= 4400; pad += step {
+			c := C18EncCase{Seed: 77, Mode: "domlit", Ctor: "4k", Level: lvl, Size: 36000, ZOneIn: 8, Gap: 16, Pad: pad}
+			cc := C18Case{Enc: &c}
+			done := begin("C18", cc)
+			err := checkC18Enc(c)
+			done()
+			if err != nil {
+				saveLast("C18", cc, err)
+				t.Fatalf("C18 violated (tiny-token clusters shifted against the buffer fills, pad %d, level %d): %v", pad, archLevel, err)
+			}
+			stats.Record("C18", stats.Digest(c), true, []string{"tiny-token-sweep"}, func() any { return cc })
+			m++
+		}
+	}
+	stats.Exhaustive("C18", fmt.Sprintf("dominant-literal data with dense clusters of 1..5-bit single-literal tokens, 4 KiB window, preceded by every number of filler bytes from 0 to 4400 in steps of %d (one input-buffer fill period), levels 1 and 2", step), m)
 	stats.Exhaustive("C18", fmt.Sprintf("a burst of 64 long far copies (33..40 bits per token) preceded by every number of padding literals from 0 to 8400 in steps of %d (a whole output-buffer period)", step), n)
 }
